@@ -485,7 +485,7 @@ class C07(Prop):
         res = Result(rule="scenario = (contexts, publishers, receivers, pre-subscriptions, subscriber-thread op lists, publication "
                           "bursts, scheduling policy) from the seeded PRNG + a schedule derived from the scenario seed; non-trivial = at "
                           "least one delivery and one concurrent subscriber thread; distinct by (seed, scenario)")
-        n = ctx.scale(450, 6000)
+        n = ctx.scale(1000, 8000)
         cases = []
         for i in range(n):
             seed = ctx.rng.randrange(1 << 30)
